@@ -34,6 +34,24 @@
             mut_ref_future(final(q).eval_ctx) == mut_ref_future(old(q).eval_ctx),
             res is Ok ==> provided_asm(*old(q).ast, res->Ok_0),
     { unimplemented!() }
+    // ---- built-in functions (U-builtin)
+    /// byte length of the UTF-8 text (String::len; uninterpreted)
+    pub uninterp spec fn utf8_len(s: Seq<char>) -> nat;
+    /// `le(x)`: the same size n = 8k, and the k bytes of x's low n bits read in the opposite order
+    pub open spec fn le_swapped(x: util::BigInt, r: util::BigInt) -> bool {
+        x.size is Some && r.size == x.size
+        && exists|b: Seq<u8>| b.len() == x.size->0 / 8 && #[trigger] num_bigint::unsigned_le(b) == x.val() % (pow2(x.size->0 as nat) as int) && r.val() == num_bigint::unsigned_be(b)
+    }
+    /// R16 helper (ASSUMED): `self.coallesce_to_integer().get_bigint()`
+    #[verifier::external_body]
+    pub fn verif_coalesced_bigint(v: &Value) -> (r: Option<util::BigInt>)
+        ensures r == (if numeric(*v) { Some(num_of(*v)) } else { None::<util::BigInt> })
+    { unimplemented!() }
+    /// R22 helper: `format!(LIT, arg)` with a string argument (text uninterpreted)
+    #[verifier::external_body]
+    pub fn verif_fmt_str(lit: &str, arg: &String) -> (r: String) { unimplemented!() }
+    #[verifier::external_body]
+    pub fn verif_string_len(s: &String) -> (r: usize) ensures r == utf8_len(s@) { unimplemented!() }
     // ---- C05: a relational big-step semantics of expressions, written from the language description.
     // `ev(e, v)`: v is a value the expression e may evaluate to. What the evaluation context and the provider
     // answer (locals, symbols, function calls, asm blocks) are uninterpreted relations.
